@@ -38,6 +38,8 @@ def wfList : List Particle → Bool
   | p :: ps => wf p && wfList ps
 end
 
+instance (k mn mx : Nat) : Decidable (repOK k mn mx) := by unfold repOK; infer_instance
+
 /-- `sys.maxsize > 1` (the value is regenerated from the running interpreter) -/
 theorem maxsize_gt_one : 1 < maxsize := by decide
 
